@@ -83,9 +83,8 @@ package jsonpatch
 
 //@ func (*partialDoc).set
 //@   requires recv: d != nil
-//@   requires inv: TreeInv() && allocated(d) && childOK(val)
+//@   requires args: allocated(d) && childOK(val)
 //@   modifies d.keys, elems(d.keys), mapof(d.obj)
-//@   ensures[C04] inv: TreeInv()
 //@   ensures[C01] ok-iff: (err == nil) <==> d.obj != nil
 //@   ensures[C01] stored: err == nil ==> key in d.obj && d.obj[key] == val
 //@   ensures[C01,C05] others: forall k string :: k != key ==> ((k in d.obj) <==> old(k in d.obj)) && d.obj[k] == old(d.obj[k])
@@ -100,9 +99,8 @@ package jsonpatch
 
 //@ func (*partialDoc).add
 //@   requires recv: d != nil
-//@   requires inv: TreeInv() && allocated(d) && childOK(val)
+//@   requires args: allocated(d) && childOK(val)
 //@   modifies d.keys, elems(d.keys), mapof(d.obj)
-//@   ensures[C04] inv: TreeInv()
 //@   ensures[C01] ok-iff: (err == nil) <==> d.obj != nil
 //@   ensures[C01] stored: err == nil ==> key in d.obj && d.obj[key] == val
 //@   ensures[C01,C05] others: forall k string :: k != key ==> ((k in d.obj) <==> old(k in d.obj)) && d.obj[k] == old(d.obj[k])
@@ -113,10 +111,9 @@ package jsonpatch
 
 //@ func (*partialDoc).remove
 //@   requires recv: d != nil && options != nil
-//@   requires inv: TreeInv() && allocated(d)
+//@   requires args: allocated(d)
 //@   modifies d.keys, elems(d.keys), mapof(d.obj)
 //@   let allow = options.AllowMissingPathOnRemove
-//@   ensures[C04] inv: TreeInv()
 //@   ensures[C01,C13] removed: old(key in d.obj) ==> err == nil && !(key in d.obj)
 //@   ensures[C01,C05,C13] others: forall k string :: k != key ==> ((k in d.obj) <==> old(k in d.obj)) && d.obj[k] == old(d.obj[k])
 //@   ensures[C13] absent-unchanged: !old(key in d.obj) ==> d.keys == old(d.keys) && !(key in d.obj)
@@ -128,3 +125,33 @@ package jsonpatch
 //@   loop 1
 //@   invariant bounds: -1 <= rangeindex && rangeindex < len(d.keys)
 //@   invariant not-found-so-far: forall j int :: 0 <= j && j <= rangeindex ==> d.keys[j] != key
+
+// ---- lazy parsing of nodes ----
+
+//@ func newLazyNode
+//@   ensures[C01,C09] fresh: result != nil && fresh(result) && result.raw == raw && result.doc == nil && result.ary == nil && result.which == eRaw
+
+//@ func newRawMessage
+//@   ensures[C01,C09] fresh: result != nil && fresh(result) && fresh(*result) && len(*result) == len(buf)
+//@   ensures[C01,C09] same-bytes: bytes(*result) == bytes(buf)
+
+//@ func (*lazyNode).UnmarshalJSON
+//@   requires recv: n != nil && allocated(n) && n.doc == nil && n.ary == nil
+//@   requires wf: wf(data)
+//@   ensures[C01] ok: err == nil && n.which == eRaw && n.raw != nil && fresh(n.raw) && fresh(*n.raw) && bytes(*n.raw) == bytes(data)
+
+//@ func (*lazyNode).tryDoc
+//@   requires node: nodeOK(n)
+//@   requires unparsed: n.which != eDoc
+//@   ensures[C06] result: result <==> (n.raw != nil && kind(val(*n.raw)) == KObj)
+//@   ensures[C06] parsed: result ==> n.which == eDoc && n.doc != nil && n.doc.obj != nil
+//@   ensures[C06] unchanged: !result ==> n.which == old(n.which)
+//@   ensures[C01,C06] raw-kept: n.raw == old(n.raw)
+
+//@ func (*lazyNode).tryAry
+//@   requires node: nodeOK(n)
+//@   requires unparsed: n.which != eAry
+//@   ensures[C06] result: result <==> (n.raw != nil && kind(val(*n.raw)) == KArr)
+//@   ensures[C06] parsed: result ==> n.which == eAry && n.ary != nil
+//@   ensures[C06] unchanged: !result ==> n.which == old(n.which)
+//@   ensures[C01,C06] raw-kept: n.raw == old(n.raw)
